@@ -865,11 +865,15 @@ impl SerdeObject for Fq {
         if bytes.len() != SIZE {
             return None;
         }
-        Some(Self::from_raw_bytes_unchecked(bytes))
-        // let out = Self::from_raw_bytes_unchecked(&bytes);
-        // Self::is_less_than_modulus(&out.0.l).then(|| out)
-        // Note: The [0, p-1] check is not performed, as it would require a
-        // Montgomery reduction.
+        let out = Self::from_raw_bytes_unchecked(bytes);
+        // The raw (Montgomery) representation of an element is itself an integer
+        // in [0, p-1]: reject anything else, so that every element has exactly one
+        // raw encoding.
+        let is_less_than_modulus = (out.0.l.iter().rev())
+            .zip(MODULUS.iter().rev())
+            .find(|(limb, modulus_limb)| limb != modulus_limb)
+            .is_some_and(|(limb, modulus_limb)| limb < modulus_limb);
+        is_less_than_modulus.then_some(out)
     }
 
     fn to_raw_bytes(&self) -> Vec<u8> {
